@@ -205,9 +205,16 @@ def sampling(tier, rng, rep):
         A, B = rnd((n + 1, n + 1)), rnd((n + 1, n + 1))
         # mixed entry types: the object's entries need not have the type of the transformation's (a real object moved by a
         # complex map, integer lattice points moved by a real map, a real map composed with a complex one)
-        xkind = ["same", "real_object", "integer_object", "same", "real_B"][t % 5]
+        xkind = ["same", "real_object", "integer_object", "same", "real_B", "integer_maps"][t % 6]
         if xkind == "real_B":
             B = B.real.copy()
+        if xkind == "integer_maps":         # matrices stored with an integer dtype, determinant not +-1 in general
+            def imat():
+                while True:
+                    m_ = rng.integers(-3, 4, size=(n + 1, n + 1)).astype(np.int64)
+                    if abs(np.linalg.det(m_)) > 1.5:
+                        return m_
+            A, B = imat(), imat()
         TA, TB, I = pr.Transformation(A.copy()), pr.Transformation(B.copy()), pr.identity(n)
         for cls, (ctor, shp) in _proj_objects(n).items():
             data = rnd(shp(shape))
